@@ -49,8 +49,9 @@ CLAIMED = {
              "(i, first position of a yielded neighbour) pairs, each once; _isdist2_hamming (and, thorough tier, _isdist3_hamming) true iff a variant "
              "with two (three) substitutions at increasing positions by other amino-acid letters is a reference; nndist_hamming = 0 for a reference, "
              "else the smallest such k <= 3 cut off at maxdist, 4 if none, NotImplementedError iff maxdist > 4.",
-        note=NOTE_COMMON + " find_neighbor_pairs is covered by a BOUNDED stand-in only (state-carrying loop over sorted()); _isdist3_hamming is discharged "
-             "in the thorough tier only. Index form <-> true Hamming / Levenshtein distance: Lean lemmas (hand-transcribed statements).",
+        note=NOTE_COMMON + " find_neighbor_pairs: loop invariant over an ordered model of sorted(<set of str>) - for a symmetric, irreflexive "
+             "neighbourhood every unordered neighbour pair of distinct given sequences is listed exactly once; _isdist3_hamming is discharged "
+             "in the thorough tier only (bounded stand-in in the quick tier). Index form <-> true Hamming / Levenshtein distance: Lean lemmas (hand-transcribed statements).",
         technique="contract-based deductive verification: VCs from the real AST (search-loop rule with nested witnesses, induction lemmas), cvc5 + z3, Lean lemmas",
         design="5/C12"),
     "C13": dict(
